@@ -93,6 +93,12 @@ def write (s : Store) (r : Snap) (label : List Nat) : Option Store :=
 def load (s : Store) (k : Key) : Option Snap :=
   (s.groups.find? (fun g => name g.1 == name k)).map (·.2)
 
+/-- `Database.__delitem__((cycle, node, label))`: `del self.h5db[getH5GroupName(cycle, node, label)]` — exactly the group of
+that name goes (`none` = KeyError: no such group, or the database is closed) -/
+def delete (s : Store) (k : Key) : Option Store :=
+  if !s.isOpen || !hasKey s k then none
+  else some { s with groups := s.groups.filter (fun g => name g.1 != name k) }
+
 /-- groups in the order `sorted(h5db.keys())` gives (Python compares `str` by code point) -/
 def nameLe (a b : Key × Snap) : Bool := decide (name a.1 ≤ name b.1)
 
